@@ -105,6 +105,7 @@ type Out struct {
 	Stack    string
 	Loopback int // loopbacks captured in this step
 	Blocked  bool // StepFullQueue: the handler was parked in a channel send
+	LostLoopback int // StepFullObsv: own observations that never arrived on the node's inbound queue
 }
 
 // ShortScalarSeqs searches message sequence numbers (same fixture otherwise) whose deterministic signature by
@@ -189,6 +190,69 @@ func (n *Node) StepFullSend(e interface{}) (out Out) {
 	}
 	n.held = nil
 	n.drain(&out)
+	return out
+}
+
+// StepFullObsv performs a local observation (or an injection) while the node's inbound observation queue is full - a
+// burst of gossip. The node's own signature travels to its aggregation through that very queue: it has to arrive
+// once there is room. Goroutine states decide (no clock): the sender of the loopback is either parked in a channel
+// send, or there is none.
+func (n *Node) StepFullObsv(e interface{}) (out Out) {
+	filler := &gossipv1.SignedObservation{Addr: []byte("verif-filler")}
+	nf := 0
+	for len(n.ObsvC) < cap(n.ObsvC) {
+		n.ObsvC <- filler
+		nf++
+	}
+	func() {
+		defer func() {
+			if p := recover(); p != nil {
+				out.Panic = p
+				out.Stack = string(debug.Stack())
+			}
+		}()
+		n.P.VerifDispatch(n.W.Ctx, e)
+	}()
+	n.drain(&out)
+	buf := make([]byte, 1<<20)
+	senders := func() (parked, other int) {
+		for _, g := range strings.Split(string(buf[:runtime.Stack(buf, true)]), "\n\n") {
+			if !strings.Contains(g, ").broadcastSignature.func") {
+				continue
+			}
+			if strings.Contains(strings.SplitN(g, "\n", 2)[0], "[chan send") {
+				parked++
+			} else {
+				other++
+			}
+		}
+		return
+	}
+	for {
+		if _, other := senders(); other == 0 {
+			break
+		}
+		runtime.Gosched()
+	}
+	for k := 0; k < nf; k++ { // make room: the fillers come out first (FIFO), parked senders move in behind them
+		if x := <-n.ObsvC; x != filler {
+			n.Pending = append(n.Pending, x)
+			out.Loopback++
+		}
+	}
+	for {
+		if parked, other := senders(); parked+other == 0 {
+			break
+		}
+		runtime.Gosched()
+	}
+	for len(n.ObsvC) > 0 {
+		n.Pending = append(n.Pending, <-n.ObsvC)
+		out.Loopback++
+	}
+	if out.Panic == nil && out.Loopback < len(out.Obs) {
+		out.LostLoopback = len(out.Obs) - out.Loopback
+	}
 	return out
 }
 
